@@ -325,6 +325,10 @@ def plan_votes(rng, w, users):
             r1 = min(r1, rest - 1)
             votes.append((us[1], 0, energy_for_power(rng, r1)))
             votes.append((us[2], rng.choice([1, 3]), energy_for_power(rng, rest - r1)))
+        if rng.random() < 0.4:
+            # the same tallies WITHOUT quorum: a non-voter's energy pushes the total above the boundary
+            # (veto above a third must still give "defeated with veto", the quorum only conditions success)
+            qplan = (us[3], rng.choice([1, 1, 2, 10 ** 6, 10 ** 12]), False)
     elif cls == "quorum":
         nv = rng.choice([1, 2, 3])
         es = [energy_for_power(rng, base + rng.randint(0, 5)) for _ in range(nv)]
@@ -394,8 +398,8 @@ def plan_scenario(rng, w):
         for (u, kind, e) in votes:
             add(lambda u=u, e=e: ["SetEnergy", u, e])
     if qplan:
-        z, delta = qplan
-        exact = rng.random() < 0.75
+        z, delta = qplan[0], qplan[1]
+        exact = rng.random() < 0.75 and (len(qplan) < 3 or qplan[2])
 
         def align():
             # evaluated after the proposal exists: its minimum quorum is known
